@@ -147,3 +147,15 @@ package absnfs
 //@ ensures [consumed] isnil(result1) ==> rpos[valof(r)] == old(rpos[valof(r)]) + 40 + roundup4(len(result0.Credential.Body)) + roundup4(len(result0.Verifier.Body))
 //@ ensures [within-stream] isnil(result1) ==> rpos[valof(r)] <= rlen[valof(r)]
 //@ ensures [frame] forall(o, mathint, o != valof(r) ==> rpos[o] == old(rpos[o])) && rpos[valof(r)] >= old(rpos[valof(r)])
+
+// ---- completeness of the AUTH_SYS body parser (added after a seeded off-by-one that rejected the legal maximum
+// of 16 auxiliary gids was not detected): a well-formed body - machine name of at most 8192 bytes, at most 16
+// auxiliary gids, all the bytes present - is accepted
+//@ also byteReader.readString
+//@ ensures [ok-iff-well-formed] {C13} isnil(result1) <==> old(r.pos) + 4 <= len(r.data) && sbe32(r.data, old(r.pos)) <= 8192 && old(r.pos) + 4 + roundup4(sbe32(r.data, old(r.pos))) <= len(r.data)
+//@ specdef authMachineLen(body []byte) mathint = sbe32(body, 4)
+//@ specdef authGidCount(body []byte) mathint = sbe32(body, 16 + roundup4(authMachineLen(body)))
+//@ specdef authWellFormed(body []byte) bool = len(body) >= 8 && authMachineLen(body) <= 8192 && len(body) >= 20 + roundup4(authMachineLen(body)) && authGidCount(body) <= 16 && len(body) >= 20 + roundup4(authMachineLen(body)) + 4 * authGidCount(body)
+//@ also ParseAuthSysCredential
+//@ ensures [accepts-well-formed] {C13} authWellFormed(body) ==> isnil(result1)
+//@ loop 1 invariant {C13} authWellFormed(body) ==> gidCount == authGidCount(body) && len(cred.MachineName) == authMachineLen(body)
